@@ -1,9 +1,9 @@
 (* C10 -- source facts.  The machines and monitors this property rests on were written against, and validated on,
    these definitions of /repo; tools/srcfacts.py regenerates their normal-form digests on every run (coq/Gen/Src_*.v).
-   Statements only. *)
+   Statements only.  Written by `tools/srcfacts.py --props` from PROP_MODULES. *)
 From Coq Require Import List String.
-From ME Require Import Model.SrcExpected Gen.Src_cos Gen.Src_helpers
-  Proofs.Src_ok_cos Proofs.Src_ok_helpers.
+From ME Require Import Model.SrcExpected Gen.Src_cos Gen.Src_helpers Gen.Src_logwrap Gen.Src_metrics_null
+  Proofs.Src_ok_cos Proofs.Src_ok_helpers Proofs.Src_ok_logwrap Proofs.Src_ok_metrics_null.
 
 (* more_executors/_impl/cancel_on_shutdown.py *)
 Theorem c10_source_cos : Src_cos.facts = expected_cos.
@@ -11,6 +11,14 @@ Proof. exact src_cos_ok. Qed.
 (* more_executors/_impl/helpers.py *)
 Theorem c10_source_helpers : Src_helpers.facts = expected_helpers.
 Proof. exact src_helpers_ok. Qed.
+(* more_executors/_impl/logwrap.py *)
+Theorem c10_source_logwrap : Src_logwrap.facts = expected_logwrap.
+Proof. exact src_logwrap_ok. Qed.
+(* more_executors/_impl/metrics/null.py *)
+Theorem c10_source_metrics_null : Src_metrics_null.facts = expected_metrics_null.
+Proof. exact src_metrics_null_ok. Qed.
 
 Print Assumptions c10_source_cos.
 Print Assumptions c10_source_helpers.
+Print Assumptions c10_source_logwrap.
+Print Assumptions c10_source_metrics_null.
